@@ -225,6 +225,18 @@ impl Prop for C07 {
             for (n, m) in [(9usize, 1usize), (20, 3), (40, 2)] {
                 v.push(Shape { alg, n, m, layout: Layout::Slice { pre_o: 0, post_o: 0, pre_n: 0, post_n: 0 }, entry: Entry::NeverExpiresLong });
             }
+            // mid-sized structured inputs (up to 140 items in total), also as sub-ranges at non-zero
+            // offsets: the search runs for many rounds, so the deadline can expire late (every
+            // probe of the run is an expiry point)
+            for layout in long_layouts(false) {
+                let (n, m) = layout_lens(&layout, 0, 0);
+                if n + m > 140 || (alg == Algorithm::Lcs && n * m > 1500) {
+                    continue;
+                }
+                for entry in [Entry::AlgDiffDeadline, Entry::CaptureDeadline] {
+                    v.push(Shape { alg, n, m, layout, entry });
+                }
+            }
             for n in 0..=max {
                 for m in 0..=max {
                     for layout in [
@@ -392,7 +404,7 @@ impl Prop for C07 {
                 "similar::{capture_diff_deadline, capture_diff_slices_deadline} (+ Compact, Replace, Capture)",
                 "similar::TextDiffConfig::{deadline, timeout, diff_slices, diff}, Deadline::into_instant, deadline_support::duration_to_deadline",
             ],
-            bounds: format!("3 algorithms x n,m in 0..={} x 3 layouts x 7 entry points (incl. TextDiffConfig::deadline and ::timeout over one-character SymTxt tokens), plus a never-expiring clock on inputs with long stretches without any match (9+1+9, 20+3+20, 40+2+40 items per side) compared with no deadline; plus TextDiffConfig::deadline / ::timeout above the 100-token threshold (100..103 pairwise different tokens per side, clock already expired); the clock is symbolic: one z3 Bool per deadline probe with a latch, so 'expired before the start', 'at probe k' for every reachable k, and 'never' are all explored; work bound after expiry: raw {}*(N+M)+{}, captured {}*(N+M)+{} comparisons (constants.json)", match tier { Tier::Quick => 4, Tier::Thorough => 5 }, konst("c07_raw_after_expiry_per_item"), konst("c07_raw_after_expiry_const"), konst("c07_captured_after_expiry_per_item"), konst("c07_captured_after_expiry_const")),
+            bounds: format!("3 algorithms x n,m in 0..={} x 3 layouts x 7 entry points (incl. TextDiffConfig::deadline and ::timeout over one-character SymTxt tokens), plus the mid-sized structured inputs of common.rs::long_layouts with at most 140 items in total (about 45, some as sub-ranges at non-zero offsets, offset lookups or interned-pool lookups) through algorithms::diff_deadline and capture_diff_deadline, every probe of each run an expiry point; plus a never-expiring clock on inputs with long stretches without any match (9+1+9, 20+3+20, 40+2+40 items per side) compared with no deadline; plus TextDiffConfig::deadline / ::timeout above the 100-token threshold (100..103 pairwise different tokens per side, clock already expired); the clock is symbolic: one z3 Bool per deadline probe with a latch, so 'expired before the start', 'at probe k' for every reachable k, and 'never' are all explored; work bound after expiry: raw {}*(N+M)+{}, captured {}*(N+M)+{} comparisons (constants.json)", match tier { Tier::Quick => 4, Tier::Thorough => 5 }, konst("c07_raw_after_expiry_per_item"), konst("c07_raw_after_expiry_const"), konst("c07_captured_after_expiry_per_item"), konst("c07_captured_after_expiry_const")),
             outside: "wall-clock behaviour of Instant::now itself; lengths beyond the bound (so the 'small constant multiple' is only bounded on small inputs)".into(),
             assumptions: vec![
                 "H1 (cfg similar_verif): deadline_exceeded consults the installed oracle instead of Instant::now() when a deadline is present".into(),
